@@ -82,6 +82,7 @@ Lemma sys_read_okp o n : okp o -> okp (fst (sys_read o n)).
 Proof.
   intros H. unfold sys_read.
   destruct (o_closed o || _); [exact H|].
+  destruct (match o_kind o with KDead => true | _ => false end); [exact H|].
   destruct (match o_kind o with KLsn => true | _ => false end); [destruct (0 <? e_rq o); [apply (okp_same o); auto|exact H]|].
   destruct (0 <? e_rq o); [apply (okp_same o); auto|].
   destruct (e_rst o); [apply (okp_same o); auto|].
@@ -169,8 +170,8 @@ Proof.
   destruct (o_evW o); [|split; [apply frame_refl; exact Hp|left; reflexivity]].
   destruct (del_interest s i o true) as [s1 o1] eqn:Ed.
   destruct (del_interest_frame b _ _ _ _ _ _ Ed Hp (okp_lookup _ _ _ Hp Hl)) as [Hf1 Ho1].
-  destruct (on_event_frame b s1 i o1 true err (frame_pollable _ _ _ Hf1) Ho1) as [Hf2 Hit].
-  split; [eapply frame_trans; eassumption|exact Hit].
+  destruct (on_event_frame b s1 i o1 true (if (err =? xCancelled) && negb (ctl_ok o) then xEPERM else err) (frame_pollable _ _ _ Hf1) Ho1) as [Hf2 Hit].
+  split; [exact (frame_trans _ _ _ _ Hf1 Hf2)|exact Hit].
 Qed.
 
 (* ---- classes of work-list items *)
@@ -245,7 +246,7 @@ Proof.
     destruct (o_evR ob).
     + destruct (del_interest (add_log s (LCancel o false)) o ob false) as [s1 o1] eqn:Ed.
       destruct (del_interest_frame b _ _ _ _ _ _ Ed (frame_pollable _ _ _ Hf0) (okp_lookup _ _ _ Hp Hl)) as [Hf1 Ho1].
-      destruct (on_event_frame b s1 o o1 false xCancelled (frame_pollable _ _ _ Hf1) Ho1) as [Hf2 Hit].
+      destruct (on_event_frame b s1 o o1 false (if ctl_ok ob then xCancelled else xEPERM) (frame_pollable _ _ _ Hf1) Ho1) as [Hf2 Hit].
       split; [eapply frame_trans; [exact Hf0|eapply frame_trans; eassumption]|].
       apply Forall_app. split; [apply itemB_opt; exact Hit|repeat constructor].
     + cbn [fst snd app]. split; [exact Hf0|repeat constructor].
@@ -464,7 +465,8 @@ End Depth.
 (* ---- script level: every line of every chain script *)
 Definition chain_lop (o : lop) : Prop :=
   match o with
-  | LObj _ k => k <> KReg
+  | LObj _ k => k <> KReg /\ k <> KDead
+  | LPeer _ PKill => False
   | LProg _ acts => Forall is_start acts
   | LDepth n => 0 <= n
   | LAct a => match a with AClose _ => False | _ => True end
@@ -511,14 +513,14 @@ Proof.
   destruct o; cbn [chain_lop] in Hc; intros Hf.
   - (* LObj *)
     unfold idle. split; [|auto].
-    unfold pollable, set_obj; cbn. apply okp_update; [exact I1|]. unfold okp, new_obj, ctl_ok; cbn. destruct k; auto; contradiction.
+    unfold pollable, set_obj; cbn. apply okp_update; [exact I1|]. unfold okp, new_obj, ctl_ok; cbn. destruct Hc as [Hc1 Hc2]. destruct k; auto; contradiction.
   - unfold idle; auto 10.
   - unfold idle. split; [exact I1|]. split; [|auto]. unfold chain_progs; cbn. apply progs_update; assumption.
   - unfold idle; cbn. auto 10.
   - change (l_objs s1) with (l_objs s). destruct (lookup i (l_objs s)) as [ob|] eqn:Hl; [|unfold idle; auto 10].
     unfold idle. split; [|auto]. unfold pollable, set_obj; cbn. apply okp_update; [exact I1|].
     pose proof (okp_lookup _ _ _ I1 Hl) as Ho.
-    destruct p; [| destruct (o_kind ob) eqn:Ek | |]; try exact Ho; apply (okp_same ob); auto.
+    destruct p; [| destruct (o_kind ob) eqn:Ek | | |contradiction]; try exact Ho; apply (okp_same ob); auto.
   - unfold idle; auto 10.
   - apply (Hexec [] (map IPollEntry batch)); try reflexivity; [constructor|apply itemB_batch|exact Hf].
   - destruct a; try contradiction.
